@@ -164,7 +164,7 @@ RRN = {
             r == Ok::<ResolvedRecord, ResolutionError>(ResolvedRecord::NonAuthoritative { rrs: zr(old(context), *question)->Some_0.1->rrs, soa_rr: None }), // [C01:recursive_local_records_returned_exactly]
         question.qtype != QueryType::Wildcard && r is Ok ==> chain_ok(resolved_rrs(r->Ok_0), question.name), // [C10:recursive_chain_in_order_from_the_question_name]
     decreases ctx_limit(old(context)) - old(context).question_stack@.len(), 0int,""",
-    "entry": L.BU + " broadcast use group_chain, lemma_chain_concat_b, lemma_merged_nil_b, lemma_nil_concat_b, axiom_rr_vec_len, axiom_dn_vec_len, axiom_names_wf;",
+    "entry": L.BU + " broadcast use group_chain, lemma_chain_concat_b, lemma_merged_nil_b, lemma_nil_concat_b, axiom_rr_vec_len, axiom_dn_vec_len, axiom_names_wf, group_local_first, lemma_alias_concat_b;",
     "loops": {"0": {"kw": "while", "spec": """        invariant
             context.question_stack@ == old(context).question_stack@.push(*question), same_env(old(context), &*context),
             old(context).question_stack@.len() < ctx_limit(old(context)), !old(context).question_stack@.contains(*question),
